@@ -223,11 +223,18 @@ def gen_queries(kinds, qops, quick, thorough, styles=None, with_constraints=Fals
                     c.add(op, bits(x), bits(y), bits(rr))
                 elif op in ("canc", "tryc", "confv", "exc"):
                     c.add(op, "v%d" % r.below(64), "v%d" % r.below(64))
-                elif op in ("isc", "confp"):
+                elif op in ("isc", "confp", "line"):
                     (x2, y2) = r.choice(query_points(r, pool, 2))
+                    if pool and r.chance(0.4):
+                        # a segment that leaves its start exactly through a vertex (and continues beyond it)
+                        vx, vy = r.choice(pool)
+                        t = r.choice([2.0, 3.0, 1.0, 1.5])
+                        x2, y2 = x + t * (vx - x), y + t * (vy - y)
                     if c.scalar == "f32" and not (gen.is_f32(x2) and gen.is_f32(y2)):
                         continue
                     c.add(op, bits(x), bits(y), bits(x2), bits(y2))
+                elif op == "lineh":
+                    c.add(op, "v%d" % r.below(64), "v%d" % r.below(64))
                 elif op == "hull":
                     c.add("hull")
                 if r.chance(0.15):
@@ -365,3 +372,111 @@ def gen_union(*gs):
 PROPS["C14"]["gen"] = gen_union(PROPS["C14"]["gen"], gen_bulk(1500, 12000))
 PROPS["C02"]["gen"] = gen_union(PROPS["C02"]["gen"], gen_bulk(800, 8000))
 PROPS["C01"]["gen"] = gen_union(PROPS["C01"]["gen"], gen_bulk(1000, 10000, kinds=("dt",)))
+
+PROPS.update({
+ "C10": dict(gen=gen_union(gen_bulk(1500, 12000, follow=()), gen_hist(kinds=("dt", "cdt"), quick=300, thorough=3000, p_bulk=1.0, w_addc=5)),
+             tags=["bulk_equiv", "bulk_stable", "bulk_edges", "wf", "geo", "delaunay", "cdtlocal", "dt_when_free", "ncons", "noncross", "validate", "parse", "decode"],
+             level="proof", rule="inputs for all four bulk loaders: grids, exactly cocircular sets, collinear runs, ulp-perturbed, extreme magnitudes, clusters, same-pseudo-angle rays, "
+             "large nearly collinear chains (unimodular lattice vectors), duplicates; random constraint index pairs (crossing ones lead to the documented panic); "
+             "each result is compared with an incremental construction performed by the implementation on the same input (same constraint set always; same edge set when no two adjacent faces are cocircular). "
+             "Non-trivial: >= 3 input points.", theorems="Props/C10.v", assumptions=[]),
+ "C11": dict(gen=gen_hist(kinds=("dt", "cdt"), quick=1500, thorough=15000, w_rm=35, w_trm=8, w_lrm=12, w_addc=10, w_dupe=5),
+             tags=["remove", "remove_cons", "vmap", "wf", "geo", "delaunay", "cdtlocal", "dt_when_free", "ncons", "parse", "decode"], level="proof",
+             rule=CDT_RULE + " removal-heavy (interior, hull, last 3/2/1 vertices, chain vertices, vertices with constraints); after each removal the result is compared with a triangulation the implementation rebuilds from scratch from the remaining vertices and constraints (same edge set when unique).",
+             theorems="Props/C11.v", assumptions=[]),
+})
+
+def gen_wheel(quick, thorough, kinds=("dt", "cdt")):
+    """high-degree vertices: a hub surrounded by many rim vertices that are nearly (not exactly) cocircular; the hub is removed"""
+    import math
+    def g(r, tier):
+        out = []
+        for i in range(n_cases(tier, quick, thorough)):
+            kind, scalar, hint = gen.pick_cfg(r, kinds, 0.15)
+            c = Case("w%d" % i, kind, scalar, hint)
+            c.meta = {"style": "wheel", "kind": kind, "scalar": scalar, "hint": hint}
+            n = r.range(6, 26 if tier != "thorough" else 60)
+            R = r.choice([10, 50, 100, 1000])
+            cx, cy = r.range(-5, 5), r.range(-5, 5)
+            rim = []
+            for k in range(n):
+                ang = 2 * math.pi * (k + r.range(-20, 20) / 100.0) / n
+                rad = R + (r.range(-R // 10, R // 10) if r.chance(0.7) else 0)
+                rim.append((float(cx + round(rad * math.cos(ang))), float(cy + round(rad * math.sin(ang)))))
+            pts = [(float(cx), float(cy))] + rim
+            order = list(range(len(pts)))
+            if r.chance(0.5):
+                r.shuffle(order)
+            hub_index = order.index(0)
+            seen = []
+            for j in order:
+                c.ins(pts[j][0], pts[j][1], j + 1)
+            # the hub's handle is its position among distinct inserted points (duplicates do not add vertices)
+            distinct = []
+            for j in order:
+                if pts[j] not in distinct:
+                    distinct.append(pts[j])
+            c.add("rm", "V%d" % distinct.index(pts[0]))
+            for _ in range(r.range(0, 3)):
+                if r.chance(0.5):
+                    c.ins(float(cx + r.range(-R, R)), float(cy + r.range(-R, R)), 700 + len(c.ops))
+                else:
+                    c.add("rm", "v%d" % r.below(64))
+            out.append(c)
+        return out
+    return g
+
+PROPS["C01"]["gen"] = gen_union(PROPS["C01"]["gen"], gen_wheel(300, 3000, kinds=("dt",)))
+PROPS["C11"]["gen"] = gen_union(PROPS["C11"]["gen"], gen_wheel(400, 4000))
+PROPS["C03"]["gen"] = gen_union(PROPS["C03"]["gen"], gen_wheel(200, 2000, kinds=("cdt",)))
+
+LATTICE = [('grid', 100)]
+def gen_lattice_cdt(quick, thorough, qops=(), **kw):
+    """small dense integer lattices: most vertex pairs are collinear with other vertices, so constraints run through vertices,
+    overlap edges, and rejected additions have accepted prefixes; inserts on constraint edges are frequent"""
+    def g(r, tier):
+        out = []
+        for i in range(n_cases(tier, quick, thorough)):
+            c = gen.history(r, "l%d" % i, kinds=("cdt",), max_ops=(22 if tier != "thorough" else 40), max_pts=16, styles=LATTICE,
+                            f32_share=0.1, w_ins=40, w_rm=8, w_addc=22, w_tryc=22, w_rmc=6, w_adde=4, w_insmid=14, w_dupe=4,
+                            w_lrm=3, w_trm=3, p_bulk=0.1, **kw)
+            for _ in range(r.range(0, 6) if qops else 0):
+                op = r.choice(list(qops))
+                c.add(op, "v%d" % r.below(64), "v%d" % r.below(64))
+            out.append(c)
+        return out
+    return g
+
+PROPS["C03"]["gen"] = gen_union(PROPS["C03"]["gen"], gen_lattice_cdt(800, 8000))
+PROPS["C04"]["gen"] = gen_union(PROPS["C04"]["gen"], gen_lattice_cdt(3000, 20000))
+PROPS["C12"]["gen"] = gen_union(PROPS["C12"]["gen"], gen_lattice_cdt(600, 6000, qops=("canc", "tryc", "confv")))
+PROPS["C11"]["gen"] = gen_union(PROPS["C11"]["gen"], gen_lattice_cdt(400, 4000))
+
+def gen_shifted_nn(quick, thorough):
+    """grids translated by large powers of two: coordinates and squared distances stay exactly representable while
+    |v|^2 does not -- any reformulation of the distance comparison that is not exact shows up"""
+    def g(r, tier):
+        out = []
+        for i in range(n_cases(tier, quick, thorough)):
+            kind, scalar, hint = gen.pick_cfg(r, ("dt",), 0.25)
+            f32 = scalar == "f32"
+            sh = r.choice([8, 13, 20]) if f32 else r.choice([20, 27, 30, 40, 45])
+            ox, oy = r.choice([-1, 1]) * float(1 << sh), r.choice([-1, 0, 1]) * float(1 << sh)
+            c = Case("s%d" % i, kind, scalar, hint)
+            c.meta = {"style": "shifted", "kind": kind, "scalar": scalar, "hint": hint}
+            g_ = r.choice([2, 3, 5])
+            pts = [(ox + r.range(-g_, g_), oy + r.range(-g_, g_)) for _ in range(r.range(3, 16))]
+            if r.chance(0.3):
+                pts = [(ox + t, oy) for t in range(-g_, g_ + 1)]          # collinear
+            for j, (x, y) in enumerate(pts):
+                c.ins(x, y, j + 1)
+            for _ in range(20):
+                qx, qy = ox + r.range(-g_ - 2, g_ + 2), oy + r.range(-g_ - 2, g_ + 2)
+                c.add("nn", bits(qx), bits(qy))
+                if r.chance(0.1):
+                    c.add("rm", "v%d" % r.below(64))
+            out.append(c)
+        return out
+    return g
+PROPS["C15"]["gen"] = gen_union(PROPS["C15"]["gen"], gen_shifted_nn(300, 3000))
+PROPS["C09"]["gen"] = gen_union(PROPS["C09"]["gen"], gen_lattice_cdt(300, 3000))
